@@ -82,9 +82,23 @@ class LoopCtx:
                     ok = False
                 if ok:
                     cands.append(n)
+            if not cands:
+                # a loop moved into a helper gets its loop-carried state as parameters
+                for n, v in self.env.locals.items():
+                    if n not in params or n in self.names.values():
+                        continue
+                    try:
+                        ok = bool(pred(v))
+                    except Exception:       # noqa: BLE001
+                        ok = False
+                    if ok:
+                        cands.append(n)
             if len(cands) != 1:
                 raise Unsupported("loop specification %s: cannot tell which local plays the role %r (expected %r; "
                                   "candidates by value at loop entry: %r)" % (self.spec.name, role, preferred, cands))
+            if cands[0] in params:
+                # state handed over by reference: the havoc rebinds the helper's name only, the caller keeps the object
+                sym.ctx().ex.by_reference_roles.add("%s.%s" % (self.spec.name, role))
             self.names[role] = cands[0]
             shared[role] = cands[0]
 
@@ -112,8 +126,11 @@ def _prove_inv(ctx, name, inv, detail):
 
 
 class LoopSpec:
-    def __init__(self, name, invariant, havoc, ghost_init=None, variant=None, roles=None):
+    def __init__(self, name, invariant, havoc, ghost_init=None, variant=None, roles=None, anchor=None, avoid=None):
         self.name = name
+        self.avoid = tuple(avoid) if avoid else ()          # identifiers a loop must NOT mention to get this specification
+        self.anchor = tuple(anchor) if anchor else None     # identifiers the loop mentions: lets the specification
+        #                                                     follow the loop when it is moved to another function
         self.roles = roles              # role -> (usual local name, predicate on its value at loop entry)
         self.invariant = invariant      # lc -> condition
         self.havoc = havoc              # lc -> None (puts loop-modified state into an arbitrary state)
